@@ -134,6 +134,7 @@ static void build_ops(void)
 		c.cmd = XC_AT; c.reg = 2; add_op(c, af[i].red && i < 8);
 		c.reg = 0;
 		c.cmd = XC_FILT; c.arg = "tr o 0"; add_op(c, af[i].red && i < 8);
+		c.cmd = XC_FILT; c.arg = "true"; add_op(c, 0);
 		c.arg = NULL;
 	}
 	{
